@@ -1525,6 +1525,15 @@ class Interp:
             c = f.unit.callees.get(f"{mod}:{nm}") or f.unit.callees.get(nm)
             if c is not None:
                 return c(self, *args, **kwargs)
+            if nm in f.unit.inline or f"{mod}:{nm}" in f.unit.inline:
+                # inlined from the .pyx source (cy2py text) of the extension module
+                pyx = mod.replace(".", "/") + ".pyx"
+                try:
+                    info = source.find(pyx, nm)
+                except (KeyError, OSError):
+                    info = None
+                if info is not None:
+                    return self.inline_call(FuncRef(info, f"{mod}:{nm}", module=mod), args, kwargs, f)
             raise Unsupported(f"call to compiled dclab function {mod}:{nm} has no contract")
         if isinstance(fn, type) and mod.startswith("dclab"):
             key = f"{mod}:{fn.__qualname__}"
